@@ -87,12 +87,16 @@ prop("C15", level="proof",
      level_note=_RULE_NOTE + " Bounded (not proved): layer / diagram rule evaluation, scanning (Parser) order independence, interpreter hash seeds.",
      explanation="Purity and order independence: frames + set-level postconditions.",
      roots=["Rule.assert_applies", "C15_reapplication_same_outcome"], bounded=[_b("invariance", "bounded_purity")], trusted_base=_TB)
-prop("C16", level="exploration",
-     level_text="Bounded exploration (contracts for LayeredArchitecture / LayerRule are not discharged yet): every builder call sequence up to the stated length is run on the real "
-                "classes and compared, call by call, with an independent specification automaton (accept/reject at the offending call, exact listing of accepted definitions).",
-     level_note="Bounded only; nothing proved. Reference automaton written from the property text.",
-     technique="bounded stand-in: exhaustive short call sequences on the real builders against a specification automaton (contract-based proof not yet available for these classes)",
-     explanation="Layer definition well-formedness: exhaustive short sequences.", roots=[], bounded=[_b("builders", "bounded_layer_definitions")], trusted_base=_TB)
+prop("C16", level="other",
+     level_text="Mixed. PROVED: the LayerRule ordering guards -- based_on accepts exactly one architecture; every verb / access method raises ImproperlyConfigured exactly when layers_that has "
+                "not been called and otherwise performs exactly the inner Rule's builder step (10 contracts). BOUNDED: LayeredArchitecture (layer / containing_modules / "
+                "have_modules_with_names_matching / with_layer: the pending-layer test uses len() of a comprehension, which the engine models only up to emptiness), layers_that / are_named "
+                "(functools.partial): every builder call sequence up to the stated length is run on the real classes and compared, call by call, with an independent specification automaton "
+                "(accept / reject at the offending call, exact listing of accepted definitions).",
+     level_note="Reference automaton written from the property text; the sequences are exhaustive up to length 4 (quick) / 5 (thorough) over an alphabet that forces duplicates.",
+     technique=_BND_TECH if "_BND_TECH" in globals() else "contract-based verification of the LayerRule guards + bounded stand-in: exhaustive short call sequences on the real builders against a specification automaton",
+     explanation="Layer definition well-formedness.", roots=["LayerRule.based_on", "LayerRule.should", "LayerRule.access_layers_that"],
+     bounded=[_b("builders", "bounded_layer_definitions")], trusted_base=_TB)
 
 _BND_NOTE = "Bounded only for the pipeline-level claim; reference semantics written from the property text. "
 _BND_TECH = "contract-based verification of the functions within reach (see evidence) + bounded stand-in: real entry points on generated project trees against a reference statement of the property"
